@@ -124,9 +124,9 @@ CHECKS = [
              'circular_overlap_single_exact of ANY rectangle = its area of intersection with the disk; every cell of the exact grid = area(pixel ∩ disk)/(dx dy) through skip box, both fast paths and the recursion, hence in [0,1], exactly 1 / 0 for covered / uncovered pixels; the mask over any grid covering the disk sums to pi r^2. '
              'Ellipse exact path (Props/C03Ellipse, C03EllipseGeom; literal model of elliptical_overlap_single_exact and overlap_area_triangle_unit_circle with circle_line / circle_segment / in_triangle): the recursion terminates (fuel 2); pixel ∩ ellipse = rx ry (T1 ∩ disk + T2 ∩ disk) in measure (linear change of variables); area_triangle = measure of the closed triangle, area_arc_unit = circular segment (minor or major); '
              'overlapTri_correct_partial: for every triangle in the class Good (all vertices inside or on; two in / one out; one in / two out incl. the pi - arc and the two-crossing branch; none in with or without chord recursion; vertices outside the 1e-10 tolerance ring, edges not tiny) the routine returns exactly the measure of triangle ∩ unit disk, hence ellipseCell_eq_volume_good: the cell value = area(pixel ∩ ellipse)/(dx dy) in [0,1]. '
-             'The full statement is REFUTED by two theorems at rational inputs (on1_branch_refuted, on2_branch_refuted) = open findings F3a / F3b (a pixel corner exactly on the ellipse), confirmed on the real library. '
+             'The full statement is REFUTED by theorems at rational inputs (on1_branch_refuted, on2_branch_refuted = open findings F3a / F3b, a pixel corner exactly on the ellipse; on_tip_branch_refuted = F3c, a vertex inside the 1e-10 tolerance ring next to a tangent edge: circle_line returns its sentinel (2,2), which is then used as a point - NaN when the chord exceeds 2; on_tip_exact_correct: with the vertex exactly on the circle the branch is right, so F3c is a pure tolerance-ring defect), confirmed on the real library. '
              'Convergence (Props/C03Converge): for every circle and every ellipse (any unit direction), every pixel and every n > 0, |sub-pixel mask cell - area(pixel ∩ open shape)| <= 2/n (circle_mask_converges, ellipse_mask_converges; abstract form sampled_error_quasiconcave for any shape whose vertical slices are open intervals of continuous quasi-concave length; per column two threshold counts within 1/(2n), across columns the midpoint rule of a unimodal function). '
-             'Sub-pixel values are k/n^2 in [0,1] (C02). NOT proved (validated only): that the IEEE-double evaluation stays within 1e-8 of the real value; the remaining on-vertex sub-branches and the tolerance ring of the ellipse routine; the convergence bound for polygons (rotated rectangles: rect_mask_converges, 2/n, Props/C03ConvergeConvex - the sandwiched column lemma admits any boundary convention and the running-maximum decomposition needs no continuity; convex polygons would need a variant with exceptional points per column).',
+             'Sub-pixel values are k/n^2 in [0,1] (C02). NOT proved (validated only): that the IEEE-double evaluation stays within 1e-8 of the real value; the remaining on-vertex sub-branches and the tolerance ring of the ellipse routine; the convergence bound for polygons (rotated rectangles: rect_mask_converges, 2/n, Props/C03ConvergeConvex - the sandwiched column lemma admits any boundary convention and the running-maximum decomposition needs no continuity; strictly convex polygons: polygon_mask_converges_convex, (k + V)/n with k vertices and V vertical edges, Props/C03ConvergePoly - exceptional points per column for the fan diagonals and the unknown boundary convention; non-convex polygons stay validated).',
      'note': 'Partial proof: floating-point evaluation is validated by a differential run: Float instance of the SAME Lean text vs the compiled kernel (circle 1e-12, ellipse bit-identical on all cells so far), and kernel vs an independent closed-form integration oracle evaluated with 50-60 digits (1e-8); convergence with the explicit constant 4L/n + 4m/n^2. Open findings F3a, F3b (not repairable here: Cython source, no compiler). '
              'Trusted: Lean kernel + 3 std axioms; tools/instantiate.py (one template, two instances); libm.'},
     {'property_id': 'C06',
